@@ -9,7 +9,9 @@ Line-protocol driver of the C14 model (`Model/ServerAuth`).
         ct, accept : cbor | json | -
         body   : malformed | rpc <method:S> <name:-|S> <apikey:-|S> <fresh:S> <pvar>
         S      : x<hex of UTF-8 bytes> | =<literal, `~` for a space>
-  restart                                                  → ok dbs=<sorted open databases>
+  restart                                                  → ok dbs=<sorted open databases>   (clean stop, start)
+  crash                                                    → ok dbs=…   (the process dies, the next one loads what is durable)
+  fault <k>                                                → ok   (the PUT of the primary's metadata object fails after k more such PUTs)
   wire401 <cbor|json>                                      → status, header set and body bytes (hex) of the rejection
   route <S>                                                → root | db:<name> | badutf8 | unrouted for a raw target
   tables                                                   → the generated parse tables with their labels
@@ -175,10 +177,13 @@ def step (d : DrvState) (line : String) : DrvState × String :=
       let (s', resp) := handle d.cfg d.s r
       ({ d with s := s' }, showResponse resp)
   | ["crash"] =>
-    -- a crash loses nothing the model tracks: bindings and registry are persisted by the request
-    -- that changed them, so the next start sees what a clean restart sees
-    let s' := restart d.cfg d.s
+    -- the process dies without flushing: the next one loads what is durable
+    let s' := crash d.cfg d.s
     ({ d with s := s' }, s!"ok dbs={showNames s'.opened}")
+  | ["fault", k] =>
+    match k.toNat? with
+    | some k => ({ d with s := stepEvent d.cfg d.s (.fault k) }, "ok")
+    | none => (d, "err:parse")
   | ["restart"] =>
     let s' := restart d.cfg d.s
     ({ d with s := s' }, s!"ok dbs={showNames s'.opened}")
@@ -201,7 +206,7 @@ def step (d : DrvState) (line : String) : DrvState × String :=
   | ["tables"] =>
     (d, s!"root:{showTable Gen.ServerMethods.rootParse} db:{showTable Gen.ServerMethods.dbParse}")
   | ["state"] =>
-    (d, s!"bound={showNames (d.s.bound.map (·.1))} opened={showNames d.s.opened} registry={showNames d.s.registry} stored={showNames d.s.stored} primary_ro={d.s.primaryRO}")
+    (d, s!"bound={showNames (d.s.bound.map (·.1))} opened={showNames d.s.opened} registry={showNames d.s.registry} stored={showNames d.s.stored} primary_ro={d.s.primaryRO} durable_bound={showNames (d.s.durableBound.map (·.1))} ext_bound={showNames (d.s.extBound.map (·.1))} durable_registry={showNames d.s.durableRegistry} fault={d.s.faultIn}")
   | _ => (d, "err:parse")
 
 end AndaVerif.Drv.C14
